@@ -189,6 +189,8 @@ def tr_stub(msgid, domain=None, mapping=None, context=None,
 
 
 _CC: dict = {"active": {}, "overlap": False}
+# ... and which bodies were compiled when: [body, began, ended, completed]
+_CK: dict = {"cooks": [], "n": 0}
 _SUBDIR = re.compile(r"<root>/[^/\s]+/")
 
 
@@ -251,6 +253,21 @@ class C14(CheckBase):
                     act[k] -= 1
             cook_check._verif = True        # type: ignore[attr-defined]
             BaseTemplateFile.cook_check = cook_check    # type: ignore
+            from chameleon.template import BaseTemplate
+            orig_cook = BaseTemplate.cook
+
+            def cook(self_, body):
+                _CK["n"] += 1
+                rec = [body, _CK["n"], None, False]
+                _CK["cooks"].append(rec)
+                try:
+                    r_ = orig_cook(self_, body)
+                    rec[3] = True
+                    return r_
+                finally:
+                    _CK["n"] += 1
+                    rec[2] = _CK["n"]
+            BaseTemplate.cook = cook        # type: ignore[method-assign]
         for i in (11, 12):
             case = self.gen(Choices(i), "quick")
             self.run(case)
@@ -279,8 +296,11 @@ class C14(CheckBase):
                 "mode": mode,
                 "nth": 1 + ch.choose(30 if mode == "access" else
                                      ch.pick([12, 60, 250])),
-                "exc": ch.pick(["KeyboardInterrupt", "MemoryError",
-                                "SystemExit", "KeyboardInterrupt"])}
+                # (not MemoryError here: pool templates have tal:on-error
+                # elements and pipes, which rightly handle an Exception
+                # that lands inside them - C16 sends MemoryError)
+                "exc": ch.pick(["KeyboardInterrupt", "SystemExit",
+                                "KeyboardInterrupt"])}
         return case
 
     def _gen(self, ch: Choices, tier: str) -> dict:
@@ -1007,6 +1027,19 @@ class C14(CheckBase):
                 # no two threads were ever reloading the instance at the
                 # same time: whatever went wrong is not that finding
                 return sig
+            # ... and the finding is about a compilation of the older
+            # content that *finishes after* one of the newest content has
+            # begun.  If the newest content was never compiled at all (a
+            # reload that was skipped), it is something else.
+            newest = FILES_V3.get(reload["target"])
+            older = FILES_V2.get(reload["target"])
+            c3 = [c for c in _CK["cooks"] if c[0] == newest and c[3]]
+            co = [c for c in _CK["cooks"] if c[0] == older and c[3]]
+            if not any(o[2] > n_[1] for o in co for n_ in c3) and \
+                    not intr_fired:
+                # (with an interrupt in the run the compilation of the
+                # newest content may be the one that was cut short)
+                return sig
             if got == v2 and got != v3:
                 return "stale-version-after-replace-during-use"
             if got[0] == "ok" and got != v3 and \
@@ -1048,6 +1081,8 @@ class C14(CheckBase):
                     dict(reload, final=3)))
         _CC["active"] = {}
         _CC["overlap"] = False
+        _CK["cooks"] = []
+        _CK["n"] = 0
         self._loaded = []
         sched, objs, results = phase("run", pol)
         # the same name through the same loader is the same instance - also
